@@ -168,3 +168,241 @@ func (in *Interp) raceQuery(pr parRun) (string, bool) {
 	in.w.stats.Inconclusive = append(in.w.stats.Inconclusive, "schedule query: "+trunc(res, 100))
 	return "", false
 }
+
+// ---------- go-statement mode: N logical threads ----------
+//
+// A go statement starts a logical thread: the engine runs its body to completion at the statement (recording its
+// access trace) and then continues the spawning thread. The schedule query ranges over integer timestamps for all
+// recorded events of all threads, constrained by program order, spawn edges (go statement -> first event of the
+// child), WaitGroup edges (every Done -> the Wait that returned after it), channel edges (k-th send -> k-th receive,
+// close -> receive of the closed flag) and mutual exclusion of critical sections; a data race is a pair of
+// conflicting accesses of different threads that some such schedule makes adjacent.
+
+func (in *Interp) goStmt(fr *frame, x *ssa.Go) {
+	if in.access == nil {
+		in.access = &accessLog{}
+	}
+	if len(in.goThreads) == 0 {
+		main := &ThreadTrace{Name: "main", id: 0}
+		in.goThreads = append(in.goThreads, main)
+		in.access.cur = main
+		in.access.syncEvent("start", "", "", 0)
+	}
+	if in.specDepth > 0 {
+		panic(specAbort{"go statement"})
+	}
+	call := in.prepareCall(fr, &x.Call, in.at(x))
+	child := &ThreadTrace{Name: fmt.Sprintf("goroutine %d (started at %s)", len(in.goThreads), in.at(x)), id: len(in.goThreads)}
+	in.access.syncEvent("spawn", "", in.at(x), child.id)
+	in.goThreads = append(in.goThreads, child)
+	parent := in.access.cur
+	in.access.cur = child
+	in.access.syncEvent("start", "", "", 0)
+	call()
+	in.access.cur = parent
+}
+
+func isSyncKind(k string) bool {
+	switch k {
+	case "acquire", "release", "spawn", "start", "done", "wait", "chsend", "chrecv", "chclose":
+		return true
+	}
+	return false
+}
+
+func (in *Interp) raceQueryN(threads []*ThreadTrace) (string, bool) {
+	// contested locations: accessed by more than one thread, not only read
+	type locInfo struct {
+		threads map[int]bool
+		written bool
+	}
+	locs := map[string]*locInfo{}
+	for _, t := range threads {
+		for _, e := range t.Events {
+			if isSyncKind(e.Kind) {
+				continue
+			}
+			li := locs[e.Loc]
+			if li == nil {
+				li = &locInfo{threads: map[int]bool{}}
+				locs[e.Loc] = li
+			}
+			li.threads[t.id] = true
+			if e.Kind != "read" {
+				li.written = true
+			}
+		}
+	}
+	type ev struct {
+		AccessEvent
+		th  int
+		idx int
+	}
+	var evs [][]ev
+	total := 0
+	for _, t := range threads {
+		var l []ev
+		for _, e := range t.Events {
+			if isSyncKind(e.Kind) || (len(locs[e.Loc].threads) > 1 && locs[e.Loc].written) {
+				l = append(l, ev{e, t.id, len(l)})
+			}
+		}
+		evs = append(evs, l)
+		total += len(l)
+	}
+	var pairs [][2]ev
+	for i := range evs {
+		for j := i + 1; j < len(evs); j++ {
+			for _, a := range evs[i] {
+				if isSyncKind(a.Kind) {
+					continue
+				}
+				for _, b := range evs[j] {
+					if !isSyncKind(b.Kind) && conflicting(a.AccessEvent, b.AccessEvent) {
+						pairs = append(pairs, [2]ev{a, b})
+					}
+				}
+			}
+		}
+	}
+	in.w.stats.Obligations++
+	if len(pairs) == 0 {
+		in.w.stats.Discharged++
+		return "", false
+	}
+	name := func(e ev) string { return fmt.Sprintf("t%d_%d", e.th, e.idx) }
+	var sb strings.Builder
+	sb.WriteString("(push 1)\n")
+	var all []string
+	for _, l := range evs {
+		for i, e := range l {
+			fmt.Fprintf(&sb, "(declare-const %s Int)\n", name(e))
+			all = append(all, name(e))
+			if i > 0 {
+				fmt.Fprintf(&sb, "(assert (< %s %s))\n", name(l[i-1]), name(e))
+			}
+		}
+	}
+	if len(all) > 1 {
+		fmt.Fprintf(&sb, "(assert (distinct %s))\n", strings.Join(all, " "))
+	}
+	before := func(a, b ev) { fmt.Fprintf(&sb, "(assert (< %s %s))\n", name(a), name(b)) }
+	// spawn, WaitGroup and channel edges
+	for _, l := range evs {
+		for _, e := range l {
+			switch e.Kind {
+			case "spawn":
+				if e.K < len(evs) && len(evs[e.K]) > 0 {
+					before(e, evs[e.K][0])
+				}
+			case "wait":
+				for _, l2 := range evs {
+					for _, d := range l2 {
+						if d.Kind == "done" && d.Loc == e.Loc && d.th != e.th && d.Seq < e.Seq {
+							before(d, e)
+						}
+					}
+				}
+			case "chrecv":
+				for _, l2 := range evs {
+					for _, d := range l2 {
+						if d.Loc != e.Loc || d.th == e.th {
+							continue
+						}
+						if (d.Kind == "chsend" && e.K >= 0 && d.K == e.K) || (d.Kind == "chclose" && e.K < 0 && d.Seq < e.Seq) {
+							before(d, e)
+						}
+					}
+				}
+			}
+		}
+	}
+	// critical sections
+	type cs struct{ acq, rel ev }
+	sections := func(l []ev) map[string][]cs {
+		m := map[string][]cs{}
+		open := map[string]ev{}
+		for _, e := range l {
+			switch e.Kind {
+			case "acquire":
+				open[e.Loc] = e
+			case "release":
+				if a, ok := open[e.Loc]; ok {
+					m[e.Loc] = append(m[e.Loc], cs{a, e})
+					delete(open, e.Loc)
+				}
+			}
+		}
+		for loc, a := range open {
+			m[loc] = append(m[loc], cs{a, l[len(l)-1]})
+		}
+		return m
+	}
+	var secs []map[string][]cs
+	for _, l := range evs {
+		secs = append(secs, sections(l))
+	}
+	for i := range secs {
+		for j := i + 1; j < len(secs); j++ {
+			for mu, as := range secs[i] {
+				for _, x := range as {
+					for _, y := range secs[j][mu] {
+						fmt.Fprintf(&sb, "(assert (or (< %s %s) (< %s %s)))\n", name(x.rel), name(y.acq), name(y.rel), name(x.acq))
+					}
+				}
+			}
+		}
+	}
+	sb.WriteString("(assert (or")
+	for _, p := range pairs {
+		fmt.Fprintf(&sb, " (= (- %s %s) 1) (= (- %s %s) 1)", name(p[0]), name(p[1]), name(p[1]), name(p[0]))
+	}
+	sb.WriteString("))\n(check-sat)")
+	out, err := in.w.solver.roundTrip(sb.String())
+	res := "error"
+	if err == nil {
+		res = classify(out)
+	}
+	desc := ""
+	if res == "sat" {
+		var q strings.Builder
+		q.WriteString("(get-value (")
+		for _, n := range all {
+			q.WriteString(n + " ")
+		}
+		q.WriteString("))")
+		vout, _ := in.w.solver.roundTrip(q.String())
+		vals := map[string]int64{}
+		if es := parseSexp(vout); len(es) > 0 && es[0].isList() {
+			for _, pr := range es[0].list {
+				if pr.isList() && len(pr.list) == 2 {
+					if r, ok := sexpRat(pr.list[1]); ok && r.IsInt() {
+						vals[pr.list[0].atom] = r.Num().Int64()
+					}
+				}
+			}
+		}
+		for _, p := range pairs {
+			d := vals[name(p[0])] - vals[name(p[1])]
+			if d == 1 || d == -1 {
+				desc = fmt.Sprintf("data race on %s: %s %s at %s / %s %s at %s", p[0].Loc, threads[p[0].th].Name, p[0].Kind, p[0].Site, threads[p[1].th].Name, p[1].Kind, p[1].Site)
+				break
+			}
+		}
+		if desc == "" {
+			desc = "data race (schedule found)"
+		}
+	}
+	in.w.solver.roundTrip("(pop 1)")
+	in.w.solver.Stats.Queries++
+	in.note(fmt.Sprintf("schedule query: %d threads, %d events, %d conflicting pairs", len(threads), total, len(pairs)))
+	switch res {
+	case "unsat":
+		in.w.stats.Discharged++
+		return "", false
+	case "sat":
+		return desc, true
+	}
+	in.w.stats.Inconclusive = append(in.w.stats.Inconclusive, "schedule query: "+trunc(res, 100))
+	return "", false
+}
